@@ -125,10 +125,10 @@ Print Assumptions C13_classes_disjoint.
 Definition ex_sched : list choice :=
   [(IO, ANone); (IO, ANone); (IO, ASel [FL] [] []); (IO, ANone); (IO, AAcc (AccConn A)); (IO, ACall None);
    (IO, ANone); (IO, ACall None); (IO, ACall None); (IO, ANone); (IO, ANone);
-   (IO, ANone); (IO, ANone); (IO, ASel [FC A] [] []); (IO, ANone);
+   (IO, ANone); (IO, ANone); (IO, ASel [FC A] [] []); (IO, ANone); (IO, ANone);
    (IO, ARecv (RErr ECONNRESET));
    (IO, ANone); (IO, ANone); (IO, ABufLen 0); (IO, ANone); (IO, ANone); (IO, ANone); (IO, ANone);
-   (IO, ANone); (IO, ANone); (IO, ANone); (IO, ANone); (IO, ANone); (IO, ANone)].
+   (IO, ANone); (IO, ANone); (IO, ANone); (IO, ANone); (IO, ANone); (IO, ANone); (IO, ANone); (IO, ANone); (IO, ANone)].
 Example ex_partial_nontrivial :
   no_wcont (trace wcfg ex_sched) /\ no_setup_fault (trace wcfg ex_sched) /\
   closes A (trace wcfg ex_sched) = 1 /\ In (LClose IO A) (trace wcfg ex_sched) /\
